@@ -711,7 +711,7 @@ pub fn modulo(dividend_value: &Value, divisor_value: &Value) -> Value {
       if divisor.abs() == FeelNumber::zero() {
         value_null!("[core::modulo] division by zero")
       } else {
-        Value::Number(dividend - divisor * (dividend / divisor).floor())
+        Value::Number(dividend % divisor)
       }
     } else {
       invalid_argument_type!("modulo", "number", divisor_value.type_of())
